@@ -446,6 +446,11 @@ TreeSet_ixor(BTree* self, PyObject* other)
             Py_INCREF(Py_NotImplemented);
             return Py_NotImplemented;
         }
+        Py_DECREF(iter);
+        iter = _distinct_elements_iter(other);
+        if (iter == NULL) {
+            goto err;
+        }
 
         while (1) {
             v = PyIter_Next(iter);
